@@ -46,12 +46,19 @@ type CLI struct {
 	AfterBare string
 	// Mute: the device swallows whatever it receives from now on and says nothing
 	Mute bool
+	// StartMode: when set, every new connection starts a session of its own in this mode (nothing of the previous session -
+	// mode, pending question, half-typed line - survives)
+	StartMode string
 }
 
 // Start implements Reactor.
 func (c *CLI) Start() []byte {
 	if c.EOL == "" {
 		c.EOL = "\r\n"
+	}
+
+	if c.StartMode != "" {
+		c.Mode, c.Pending, c.line, c.echoed, c.Mute = c.StartMode, nil, nil, 0, false
 	}
 
 	return []byte(c.Banner + c.Prompts[c.Mode])
